@@ -266,3 +266,58 @@ func runSlotSpecs(cr *caseRunner, want map[string]bool, exec func(idx int, s *Sp
 		}
 	}
 }
+
+// FormSpecs: every special constructor form of the pool (result objects with one / several /
+// ignored / grouped fields, multi-return, parameter objects of every flavour, closures, built-in
+// holders, initializers ...) as a minimal VALID registration set in each of the three lifetimes:
+// the constructor plus leaf providers for its live dependencies, all of one lifetime. The
+// lifetime-specific properties (C01 singleton, C02 scoped, C03 transient, C10 disposal) run the
+// whole catalogue through their usual executor and oracle, so that no declaration form depends on
+// what the random generator happens to draw for that lifetime.
+func FormSpecs() []SlotSpec {
+	var out []SlotSpec
+	names := append(append([]string{}, specialNames...), outGroupNames...)
+	for _, name := range names {
+		meta := pool.ByName(name)
+		if meta == nil {
+			panic("FormSpecs: unknown constructor " + name)
+		}
+		var got []SlotSpec
+		for _, ss := range slotSpecsFor(meta) {
+			if ss.Variant == "valid" {
+				got = append(got, ss)
+			}
+		}
+		if len(got) == 0 {
+			live := false
+			for _, d := range meta.Deps {
+				if !(d.IsInert() || (d.IsBuiltin() && d.Key == "" && d.Group == "")) {
+					live = true
+				}
+			}
+			if live {
+				continue // a form the slot catalogue cannot serve (self-dependency, no free leaf)
+			}
+			for _, l := range allLifetimes {
+				got = append(got, SlotSpec{Spec: &Spec{Regs: []Reg{{Ctor: meta.ID, Life: l}}}, Variant: "valid", Consumer: meta.Name, Slot: -1})
+			}
+		}
+		for _, ss := range got {
+			if NewModel(ss.Spec).Class == ClsOK {
+				ss.Variant = "form"
+				out = append(out, ss)
+			}
+		}
+	}
+	return out
+}
+
+// FormLifetime is the lifetime of the consumer of a form spec.
+func (ss SlotSpec) FormLifetime() godi.Lifetime {
+	for _, r := range ss.Spec.Regs {
+		if !r.Remove && r.Ctor >= 0 && pool.Ctors[r.Ctor].Name == ss.Consumer {
+			return r.Life
+		}
+	}
+	return godi.Singleton
+}
